@@ -1189,6 +1189,11 @@ class _WireReader:
                     self.message.opt = dns.rrset.from_rdata(name, ttl, rd)
                 elif rdtype == dns.rdatatype.TSIG:
                     trd = cast(dns.rdtypes.ANY.TSIG.TSIG, rd)
+                    if ttl != 0:
+                        # The TTL of a TSIG RR must be zero, and the MAC is
+                        # computed over a zero TTL (RFC 8945, sections 4.2 and
+                        # 4.3.3), so a non-zero value is not authenticated.
+                        raise BadTSIG
                     if self.keyring is None or self.keyring is True:
                         raise UnknownTSIGKey("got signed message without keyring")
                     elif isinstance(self.keyring, dict):
